@@ -46,6 +46,9 @@ from async_upnp_client.utils import CaseInsensitiveDict
 
 _LOGGER = logging.getLogger(__name__)
 
+# An XML parser turns a literal carriage return into a line feed (XML 1.0, 2.11).
+_ESCAPE_ENTITIES = {"\r": "&#13;"}
+
 
 EventCallbackType = Callable[["UpnpService", Sequence["UpnpStateVariable"]], None]
 
@@ -709,7 +712,9 @@ class UpnpAction:
     def _format_request_args(self, **kwargs: Any) -> str:
         self.validate_arguments(**kwargs)
         arg_strs = [
-            f"<{arg.name}>{escape(arg.coerce_upnp(kwargs[arg.name]))}</{arg.name}>"
+            f"<{arg.name}>"
+            f"{escape(arg.coerce_upnp(kwargs[arg.name]), _ESCAPE_ENTITIES)}"
+            f"</{arg.name}>"
             for arg in self.in_arguments()
         ]
         return "\n".join(arg_strs)
